@@ -164,6 +164,20 @@ def build(spec):
             return and_(*conj)
 
         props.append(bmc.Prop("join() returned True only after every earlier task finished", joined, finding=spec.get("join_finding")))
+    if "drained_once" in want:
+        covers = spec.get("join_covers", {})
+
+        def drained(S):
+            conj = []
+            for c, ops in enumerate(spec["clients"]):
+                for op in ops:
+                    if op.startswith("join") and not op.startswith("joint"):
+                        key = "T{0}.client{0}.j{1}".format(c, op[4:])
+                        once = and_(*[eq(S["exec_count[{0}]".format(i)], 1) for i in covers.get(op, [])])
+                        conj.append(or_(not_(truthy(S[key])), once))
+            return and_(*conj)
+
+        props.append(bmc.Prop("once the pool is drained every enqueued notification task has run exactly once", drained))
     if "stopped_clean" in want:
         def clean(S):
             conj = [ne(S["W.state[{0}]".format(w)], 2) for w in range(W)]
@@ -189,6 +203,9 @@ def build(spec):
         # client's progress counter shows that the first `window_at` operations completed)
         nthreads = len(spec["clients"]) + spec.get("W", spec["max"] + 1)
         who = [t for t in range(nthreads) if t not in spec.get("hold", [])]
+        if spec.get("prefix_order") == "workers_first":
+            # a different history leading to the window: workers are scheduled before the client in every round
+            who = [t for t in who if t != 0] + [0]
         prefix = [("rr_prog", 0, spec["window_at"], who)] + prefix
     spec = dict(spec, prefix=prefix)
     return {"system": system, "lo": lo, "universe": U, "clients": programs, "props": props, "twin": twin,
